@@ -355,7 +355,7 @@ func (w *ksWorld) serve(app *fiber.App, conn *harness.Conn, r *ksReq, o *ksObs) 
 }
 
 func ksGenerate(s *simrt.Sim, nconn int, flashValid string) []*ksReq {
-	n := s.Range(3, 40)
+	n := s.Range(3, harness.Scale(40, 70))
 	var out []*ksReq
 	vals := []string{"x", "alpha", "a-much-longer-value-to-grow-buffers-0123456789", "", "Zz9", "q%20r", "üñí"}
 	val := func() string { return vals[s.Draw(len(vals))] }
@@ -493,7 +493,7 @@ func ksRun(s *simrt.Sim, info *harness.RunInfo, immutMode bool) {
 	} else {
 		cfg.Immutable = s.Chance(300)
 	}
-	nconn := s.Range(1, 4)
+	nconn := s.Range(1, harness.Scale(4, 6))
 	preempt := simrt.PickS(s, 150, 0, 50, 400)
 	cfgLine := fmt.Sprintf("immutMode=%v immutable=%v caseSensitive=%v strict=%v unescape=%v conns=%d preempt=%d", immutMode, cfg.Immutable, cfg.CaseSensitive, cfg.StrictRouting, cfg.UnescapePath, nconn, preempt)
 	s.Logf("cfg %s", cfgLine)
